@@ -63,6 +63,16 @@ CHECKS = {
         ],
         'assumptions': ASSUME_COMMON,
     },
+    'C07': {
+        'level': 'model_checking',
+        'jobs': [
+            T('MC_Surveyor', 'Surveyor_quick.cfg'),
+            T('MC_Surveyor', 'Surveyor_full.cfg', tiers=('thorough',), timeout=3000),
+            C('surveyor', 'TestSurveyor', 'TraceSurveyor', n={'quick': 120, 'thorough': 1500}),
+            C('respondent', 'TestRespondent', 'TraceRespondent', n={'quick': 40, 'thorough': 400}),
+        ],
+        'assumptions': ASSUME_COMMON,
+    },
     'C09': {
         'level': 'model_checking',
         'jobs': [
